@@ -1,13 +1,15 @@
 // C15 bounded stand-in: the map-node contract of plain directories, generic link maps and HAMTs.
 //
 // Bounds (quick | thorough):
-//   link lists: EVERY sequence of length 0..4 | 0..5 over the name alphabet {absent, "", "a", "b"}
-//     (duplicates and every order included), each link with its own CID; plus 50 | 2000 random
-//     lists of up to 12 links over {absent,"","a","b","é","a b","00","0A","世界"} (VERIF_SEED);
-//     each list as a generic link map (no Data) and as a UnixFS Directory; each both as the node
-//     built in memory (order as given) and after dag-pb encode -> decode (links sorted);
-//   sharded directories: builder HAMTs, fanouts {8,256} | {8,16,64,256,1024}, 1 / 7 colliding /
-//     200 | 2000 names.
+//
+//	link lists: EVERY sequence of length 0..4 | 0..5 over the name alphabet {absent, "", "a", "b"}
+//	  (duplicates and every order included), each link with its own CID; plus 50 | 2000 random
+//	  lists of up to 12 links over {absent,"","a","b","é","a b","00","0A","世界"} (VERIF_SEED);
+//	  each list as a generic link map (no Data) and as a UnixFS Directory; each both as the node
+//	  built in memory (order as given) and after dag-pb encode -> decode (links sorted);
+//	sharded directories: builder HAMTs, fanouts {8,256} | {8,16,64,256,1024}, 1 / 7 colliding /
+//	  200 | 2000 names.
+//
 // Contract checked on the reified node: MapIterator yields exactly Length() pairs, then Done();
 // every yielded key is found by LookupByString and resolves to the link FIRST yielded under that
 // key; probe keys never yielded are not found; LookupByString, LookupByNode, LookupBySegment and
